@@ -11,7 +11,7 @@ from ..protos import stun, dns
 
 PROP = "C04"
 RULE = ("all replies of the shared reply-eliciting mix (all protocols, both IP versions, TCP and UDP, odd and even "
-        "lengths) and of its re-framed variants (IPv4 options of 4..40 bytes, Ethernet padding, total length beyond the capture, TCP "
+        "lengths; every third round behind 300 / 1000 / 5000 connections already held by the responder) and of its re-framed variants (IPv4 options of 4..40 bytes, Ethernet padding, total length beyond the capture, TCP "
         "options, byte-level mutations), every echo payload length 0..1472 for ICMPv4 and ICMPv6 plus sampled lengths up to 4000, and "
         "checksum steering: after observing one reply the monitor computes the 16-bit adjustment of an echoed request "
         "field (STUN transaction id, DNS id, RPC xid, echo identifier, TCP acknowledgement number of a FIN|ACK) that drives the reply's computed "
@@ -134,6 +134,12 @@ def shard(ctx, budget_s):
     while time.time() < deadline or n == 0:
         cfg = gen.rnd_config(rng, deny=False, logger="n", level=0)
         ctx.case(cfg)
+        if n % 3 == 1:
+            # a responder that is holding hundreds or thousands of connections emits the same well-formed frames (window,
+            # lengths and checksums do not depend on how busy it is)
+            from ..applab import AppLab
+            ctx.stats["busy_table_rounds"] += 1
+            ctx.extra["busy_table_max"] = max(ctx.extra.get("busy_table_max", 0), AppLab(ctx, cfg).crowd(rng.choice([300, 1000, 5000]), payload=[b"x", b"GET /"]))
         workloads.reply_mix(ctx, cfg, rounds=1, on_reply=on_reply)
         ctx.case(reset=False, record=False)
         for _ in range(3):
